@@ -303,6 +303,15 @@ impl<'a> MessageParser<'a> {
         trimmed.starts_with(&format!(":{}:", tag))
     }
 
+    /// Is the immediate next field `base_tag` with one of the given option letters?
+    /// (`""` stands for "no letter".) Nothing is consumed.
+    pub fn next_field_has_variant(&self, base_tag: &str, letters: &[&str]) -> bool {
+        match self.peek_field_variant(base_tag) {
+            Some(variant) => letters.contains(&variant.as_str()),
+            None => false,
+        }
+    }
+
     /// Peek at the variant of a field without consuming it
     /// Returns the variant letter (e.g., "A", "K", "C", "L") if the field exists
     pub fn peek_field_variant(&self, base_tag: &str) -> Option<String> {
